@@ -37,7 +37,9 @@
     the same next handle.
 
   What "expressible" means (`stepOut2`): an entity operation as in `Ark.RelRefine` (`guard`: handles
-  the client was given, registered components, well-formed relation arguments); `copy` on a handle
+  the client was given, registered components, relation arguments satisfying `RelsStep` — since
+  the repair of the `Unsafe` API (D24) a relation on a non-relation component, on a component not
+  added, or with a removed target IS a step on every path: `demoU_*`); `copy` on a handle
   the client was given; a filter operation or query on a filter object constructed AFTER the
   `Reset` (a filter object is a client-side object — one built before the `Reset` does not exist
   in run B), with fixed / per-call relation targets the client can name (zero or a handle it was
@@ -363,8 +365,9 @@ section Xchg
 open Ark.RelRefine3
 
 /-- the outcome of an expressible `Exchange` is a function of the specification: accepted iff
-    `preXchg`, otherwise rejected with `rejKindX` (the typed pre-validation; `deadEntity`;
-    `noComponents`; the class the mask walk reports) and without effect -/
+    `preXchg`, otherwise rejected with `rejKindX` (`Unsafe` on a dead handle: `deadEntity`; the
+    pre-validation of the relations, on every path; `deadEntity`; `noComponents`; the class the
+    mask walk reports) and without effect -/
 theorem xchg_outcome_from_spec (run : ProbeRunner) (cap rel : Nat) (ops : List Op3)
     (hlen : ops.length + 1 < 2 ^ 16) (p : Path) (e : Ent) (add : List Comp) (vals : Refine.Comps)
     (rem : List Comp) (rels : Rels)
@@ -469,6 +472,52 @@ example :
     TraceEq (trace3 noRun [] (reach3 noRun 4 4 (demoPre3 ++ [.base2 .reset])) demoPost3)
       (trace3 noRun [] (reach3 noRun 16 8 (regsOf3 demoPre3)) demoPost3) :=
   same_trace3 noRun noRun 4 4 16 8 demoPre3 demoPost3 (by decide)
+
+/-- **the steps the repair of the `Unsafe` API (D24) added**: through `Unsafe`, a relation on a
+    non-relation component, on a component that is not added, with a removed entity as target —
+    all refused up front (`notRelation`, `relNotInMask`, `deadTarget`; `Unsafe.AddRel` without
+    components skips membership and says `noComponents`; `Unsafe.Exchange` on a dead handle says
+    `deadEntity` before it looks at the relations, `ExchangeN.Exchange` after) -/
+def demoPostU : List Op3 :=
+  [ .base2 (.base (.new .unsafe_ [] [] [])), .base2 (.base (.new .unsafe_ [] [] [])),
+    .base2 (.base (.new .unsafe_ [0, 1] [(0, 11)] [⟨1, A⟩])),
+    .base2 (.base (.new .unsafe_ [0] [] [⟨0, Ent.zero⟩])),
+    .base2 (.base (.new .unsafe_ [0] [] [⟨1, Ent.zero⟩])),
+    .base2 (.base (.new .unsafe_ [] [] [⟨1, A⟩])),
+    .base2 (.base (.add .unsafe_ A [] [] [⟨1, Ent.zero⟩])),
+    .base2 (.base (.add .unsafe_ A [0] [] [⟨1, B⟩])),
+    .base2 (.base (.add .typed A [0] [] [⟨2, B⟩])),
+    .base2 (.base (.setrel .unsafe_ c1 [⟨0, Ent.zero⟩])),
+    .base2 (.base (.setrel .unsafe_ c1 [⟨1, B⟩, ⟨1, A⟩])),
+    .xchg .unsafe_ c1 [2] [] [] [⟨1, A⟩],
+    .xchg .unsafe_ c1 [2] [] [0] [⟨2, A⟩],
+    .base2 (.base (.del B)),
+    .base2 (.base (.setrel .unsafe_ c1 [⟨1, B⟩])),
+    .base2 (.base (.new .unsafe_ [0, 1] [] [⟨1, B⟩])),
+    .base2 (.base (.add .unsafe_ A [1] [] [⟨1, B⟩])),
+    .xchg .unsafe_ A [1] [] [] [⟨1, B⟩],
+    .xchg .unsafe_ B [1] [] [] [⟨1, B⟩],
+    .xchg .typed B [1] [] [] [⟨1, B⟩] ]
+
+/-- every operation of `demoPostU` is a step (no `none`), with these outcomes — on both sides -/
+theorem demoU_trace_reset :
+    trace3 noRun [] (reach3 noRun 4 4 (demoPre3 ++ [.base2 .reset])) demoPostU =
+    [ some (.call (.ok (some A))), some (.call (.ok (some B))), some (.call (.ok (some c1))),
+      some (.call (.panic .notRelation)), some (.call (.panic .relNotInMask)),
+      some (.call (.panic .relNotInMask)), some (.call (.panic .noComponents)),
+      some (.call (.panic .relNotInMask)), some (.call (.panic .notRelation)),
+      some (.call (.panic .notRelation)), some (.call (.panic .relTwice)),
+      some (.call (.panic .relNotInMask)), some (.call (.panic .notRelation)),
+      some (.call (.ok none)),
+      some (.call (.panic .deadTarget)), some (.call (.panic .deadTarget)),
+      some (.call (.panic .deadTarget)), some (.call (.panic .deadTarget)),
+      some (.call (.panic .deadEntity)), some (.call (.panic .deadTarget)) ] := by
+  decide +kernel
+
+theorem demoU_traces_equiv :
+    TraceEq (trace3 noRun [] (reach3 noRun 4 4 (demoPre3 ++ [.base2 .reset])) demoPostU)
+      (trace3 noRun [] (reach3 noRun 16 8 (regsOf3 demoPre3)) demoPostU) := by
+  decide +kernel
 
 end Xchg
 
